@@ -9,6 +9,10 @@
                                   derived function panicked although no user function did. The
                                   result values are natural-number codes of typed values (0 = the
                                   zero value / nil interface), so the prediction is the same.
+                                  An error is a tag (re): which Go value carries it is an input
+                                  class as well (symbols errs-...: errors of a dynamic type that is
+                                  not comparable, a comparable box around one, a typed nil pointer);
+                                  functions that return the SAME error value have the same tag.
    (search PROG (fs F...))        exhaustive search of the TRANSLATED program for a schedule that
                                   violates the property (used when translated <> expected).
    F    = (f (OP...) rv re)   OP = (s c) | (r c)   re = 0 (nil) | tag+1
